@@ -2,6 +2,7 @@
 pub open spec fn TW() -> int { 0x1_0000_0000_0000_0000 }                 // 2^64
 pub open spec fn TT() -> int { TW() * TW() }             // the byte counter is two words wide
 pub open spec fn rotr(x: u64, n: u64) -> u64 { (x >> n) | (x << ((64 - n) as u64)) }
+#[verifier::opaque]
 pub open spec fn addw(a: u64, b: u64) -> u64 { a.wrapping_add(b) }
 pub open spec fn IV() -> Seq<u64> { seq![0x6a09e667f3bcc908u64, 0xbb67ae8584caa73bu64, 0x3c6ef372fe94f82bu64, 0xa54ff53a5f1d36f1u64, 0x510e527fade682d1u64, 0x9b05688c2b3e6c1fu64, 0x1f83d9abfb41bd6bu64, 0x5be0cd19137e2179u64] }
 // message word schedule SIGMA (RFC 7693 2.7), one row per round (rounds 10 and 11 of BLAKE2b reuse rows 0 and 1)
@@ -25,11 +26,13 @@ pub open spec fn G(v: Seq<u64>, a: int, b: int, c: int, d: int, x: u64, y: u64) 
     let c2 = addw(c1, d2);              let b2 = rotr(b1 ^ c2, 63);
     v.update(a, a2).update(b, b2).update(c, c2).update(d, d2)
 }
+#[verifier::opaque]
 pub open spec fn round(v: Seq<u64>, m: Seq<u64>, r: int) -> Seq<u64> {
     let s = SIGMA(r % 10);
     let v1 = G(G(G(G(v, 0, 4, 8, 12, m[s[0]], m[s[1]]), 1, 5, 9, 13, m[s[2]], m[s[3]]), 2, 6, 10, 14, m[s[4]], m[s[5]]), 3, 7, 11, 15, m[s[6]], m[s[7]]);
     G(G(G(G(v1, 0, 5, 10, 15, m[s[8]], m[s[9]]), 1, 6, 11, 12, m[s[10]], m[s[11]]), 2, 7, 8, 13, m[s[12]], m[s[13]]), 3, 4, 9, 14, m[s[14]], m[s[15]])
 }
+#[verifier::opaque]
 pub open spec fn rounds(v: Seq<u64>, m: Seq<u64>, n: int) -> Seq<u64> decreases n { if n <= 0 { v } else { round(rounds(v, m, n - 1), m, n - 1) } }
 pub open spec fn le_word(b: Seq<u8>) -> u64 { (b[0] as int + b[1] as int * 0x100 + b[2] as int * 0x10000 + b[3] as int * 0x1000000 + b[4] as int * 0x100000000 + b[5] as int * 0x10000000000 + b[6] as int * 0x1000000000000 + b[7] as int * 0x100000000000000) as u64 }
 pub open spec fn words_of(blk: Seq<u8>) -> Seq<u64> { Seq::new(16, |i: int| le_word(blk.subrange(8 * i, 8 * i + 8))) }
